@@ -69,6 +69,13 @@ func ProfileFor(prop, tier string, r *Rng) *Profile {
 		scale(0.2, KNewObserver, KMisuse)
 	case "C18":
 		scale(10, KResource)
+	case "C12":
+		scale(3, KSetRel, KRemoveEntity, KSweep, KNewFilter, KRegister, KStats, KNext, KOpenQuery)
+		scale(2, KShrink, KReset)
+	case "C20":
+		p.Tiny = true
+		p.W[KQMisuse] = 8
+		scale(3, KMisuse, KSweep, KStats)
 	case "C19":
 		scale(8, KStats)
 		p.StatsEvery = 3
